@@ -90,7 +90,11 @@ func incrementBytes(in []byte) []byte {
 	for i := len(rv) - 1; i >= 0; i-- {
 		rv[i] = rv[i] + 1
 		if rv[i] != 0 {
-			return rv // didn't overflow, so stop
+			// didn't overflow, so stop; bytes that did overflow (0xff -> 0x00)
+			// are dropped, otherwise the result is not the smallest key
+			// beyond the prefix range: {'a', 0xff} must give {'b'}, and
+			// {'b', 0x00} would let the key "b" into the iteration
+			return rv[:i+1]
 		}
 	}
 	return nil // overflowed
